@@ -37,7 +37,9 @@ def preload():
 def gen_case(rng, tier, idx):
     if rng.random() < 0.01:
         return _long_chain_case(rng)
-    spec = gen_mdp_spec(rng, proper=rng.random() < 0.6, discounts=(0.5, 0.8, 0.9, 0.95, 1.0, 1.0))
+    # 4 %: large costs that differ by small surcharges (returns of different roll-outs agree to 5-6 significant digits)
+    spec = gen_mdp_spec(rng, proper=rng.random() < 0.6, discounts=(0.5, 0.8, 0.9, 0.95, 1.0, 1.0),
+                        rewards=(-50000.0, -50000.25, -49999.75, -50000.0) if rng.random() < 0.04 else None)
     v = MDPView(spec)
     pol = []
     for s in range(v.N):
